@@ -36,7 +36,9 @@ def registry():
 def proof_items():
     from contracts import lazy
     from vf.driver import ProofItem
-    return [ProofItem(lazy.evaluate, gen=lazy.gen)]
+    return [ProofItem(lazy.evaluate, gen=lazy.gen),
+            ProofItem(lazy.evaluate_lazy, gen=lazy.el_gen, bounded_only=True,
+                      why_bounded="recursion over dynamically typed containers (dict/tuple/list/set of anything)")]
 
 
 def _cases(tier, rng):
@@ -55,7 +57,9 @@ def _check(case):
     from pipefunc.lazy import _LazyFunction, construct_dag
     d, out = case["dag"], case["output"]
     need = dag.needed_roots(d, out, set())
-    kw = {r: f"v_{r}" for r in need}
+    # root values of several kinds: a tuple / list / dict handed to a function must arrive as that kind of object
+    kinds = {"x": lambda r: f"v_{r}", "y": lambda r: (f"v_{r}", 1), "z": lambda r: [f"v_{r}", 2]}
+    kw = {r: kinds.get(r, kinds["x"])(r) for r in need}
     try:
         want, vals, calls = dag.refeval(d, out, kw)
     except dag.NotComputable:
